@@ -135,6 +135,11 @@ def jobs(prop, tier):
                      bounds='all 256 symbols x {send, start arbitration, info request}', **DEV))
         J.append(Job('C14', 'frame', 'C14_enhanced.cpp', defs={'H_FRAME': None}, unwind=10, unwindset={'cstrlen': 34, 'put_field': 34, 'vs_copy': 34, 'basic_ostringstreamIcSt11char_traitsIcESaIcEE3strEv': 34}, shape='K', timeout=900 if T else 250,
                      bounds='every well-formed unit (plain byte or two-byte frame of any command/data) from every arbitration state', **DEV))
+        J.append(Job('C14', 'plain', 'C14_enhanced.cpp', defs={'H_PLAIN': None, 'L': 3}, unwind=10, shape='K', timeout=900 if T else 250,
+                     bounds='PlainDevice: every arbitration state x 1..3 arbitrary buffered bytes', **DEV))
+        J.append(Job('C14', 'filetransport', 'C14_transport.cpp', defs={}, unwind=34, shape='S', timeout=900 if T else 280,
+                     link=['lib/ebus/transport.cpp', 'lib/ebus/symbol.cpp', 'lib/ebus/result.cpp'], models=['string', 'libc', 'sstream_null', 'posix', 'containers', 'libm'], solver=PORTFOLIO,
+                     bounds='one read/peek/consume from every buffer state (0..32 bytes, any content) x every ppoll/read outcome'))
         for l in ((2, 3, 4) if T else (2,)):
             J.append(Job('C14', 'stream%d' % l, 'C14_enhanced.cpp', defs={'H_STREAM': None, 'L': l}, unwind=l + 3, unwindset={'cstrlen': 34, 'put_field': 34, 'vs_copy': 34}, shape='R', timeout=3000 if T else 280,
                          bounds='every stream of %d arbitrary bytes from every arbitration state, against a reference decoder written from docs/enhanced_proto.md' % l, **DEV))
@@ -171,7 +176,7 @@ def jobs(prop, tier):
                     j.name = prefix + j.name
                     j.dir = __import__('os').path.join(__import__('vplib.pipeline', fromlist=['BUILD']).BUILD, 'C20', j.name)
                     J.append(j)
-        adopt('C14', lambda n: n in ('frame', 'chunk2'), 'enh_')
+        adopt('C14', lambda n: n in ('frame', 'chunk2', 'plain', 'filetransport'), 'enh_')
         adopt('C11', lambda n: n.startswith('hex'))
         adopt('C05', lambda n: T or n in ('raw_UCH', 'raw_BCD2', 'raw_SLG', 'raw_BI3_2', 'raw_S3N'))
         adopt('C07', lambda n: T or n in ('parse_UCH', 'parse_FLT', 'parse_ULG', 'parse_SLG'))
